@@ -825,3 +825,17 @@ Proof.
   - intros k y Hin. rewrite (eval_unread sc s y I _ HR); [apply (Hnot k y Hin)|].
     rewrite <- unread_not. apply (Hval k _ Hin).
 Qed.
+
+(* ------------------------------------------------------------------------------------------------- *)
+(* G. the statements about whole calls                                                                *)
+(* ------------------------------------------------------------------------------------------------- *)
+Theorem call_spec st t e :
+  nf e = true -> forallb entry_ok t = true ->
+  snd (substitute_call st t e) = Done (topdown_replace (untyped t) e).
+Proof.
+  intros Hnf Hok. rewrite (subst_accepts st t e Hok). cbn [snd]. f_equal. exact (subst_spec _ e Hnf).
+Qed.
+
+Theorem updated_gives_keys sc I s :
+  keys_ok s = true -> forall k v, In (k, v) s -> eval sc k (updated sc s I) = eval sc v I.
+Proof. intros H k v Hin. exact (updated_key I sc I s H k v Hin). Qed.
